@@ -12,6 +12,7 @@ import (
 	"path/filepath"
 	"regexp"
 	"runtime"
+	"sort"
 	"strconv"
 	"strings"
 	"sync"
@@ -233,6 +234,34 @@ func sigOf(stack string) string {
 }
 
 // childRun: vcheck child c20run <seed> <idx> <cycles> <workdir>
+// workersAfterStop watches the worker bookkeeping of every module for a short while after Stop() returned success:
+// "no worker left running" includes a worker that was handed to the manager before the stop and only begins to run
+// after it (counted late), so one look right after Stop is not enough. Returns the first module seen with workers.
+func workersAfterStop(in *mycoria.Instance) string {
+	mods := map[string]*mgr.Manager{"state": in.State().Manager(), "peering": in.Peering().Manager(), "switch": in.Switch().Manager(), "router": in.Router().Manager()}
+	if in.API() != nil {
+		mods["api"] = in.API().Manager()
+	}
+	names := make([]string, 0, len(mods))
+	for mn := range mods {
+		names = append(names, mn)
+	}
+	sort.Strings(names)
+	for sample := 0; sample < 60; sample++ {
+		for _, mn := range names {
+			if !mods[mn].WaitForWorkers(time.Microsecond) {
+				return mn
+			}
+		}
+		if sample%2 == 0 {
+			runtime.Gosched()
+		} else {
+			time.Sleep(time.Millisecond)
+		}
+	}
+	return ""
+}
+
 func childRun(args []string) int {
 	seed, _ := strconv.ParseUint(args[0], 10, 64)
 	idx, _ := strconv.Atoi(args[1])
@@ -417,8 +446,11 @@ func childRun(args []string) int {
 		}
 		if mode == "immediate" {
 			// Stop right after Start, before anything had time to happen.
-			if ok := instA.Stop(); !ok {
+			ok := instA.Stop()
+			if !ok {
 				fail("stop-returned-false", "router A: Stop() right after Start() returned false")
+			} else if mn := workersAfterStop(instA); mn != "" {
+				fail("worker-left-running:"+mn, "router A: module %s has running workers after Stop() right after Start() returned success", mn)
 			}
 			if c, err := net.DialTimeout("tcp", fmt.Sprintf("%s:%d", g.loopHost(), portA), 300*time.Millisecond); err == nil {
 				c.Close()
@@ -629,14 +661,8 @@ func childRun(args []string) int {
 			if !ok {
 				fail("stop-returned-false", "router %s: Stop() returned false", name)
 			}
-			mods := map[string]*mgr.Manager{"state": in.State().Manager(), "peering": in.Peering().Manager(), "switch": in.Switch().Manager(), "router": in.Router().Manager()}
-			if in.API() != nil {
-				mods["api"] = in.API().Manager()
-			}
-			for mn, mm := range mods {
-				if !mm.WaitForWorkers(time.Millisecond) {
-					fail("worker-left-running:"+mn, "router %s: module %s still has running workers after Stop", name, mn)
-				}
+			if mn := workersAfterStop(in); ok && mn != "" {
+				fail("worker-left-running:"+mn, "router %s: module %s has running workers after Stop returned success", name, mn)
 			}
 		}
 		// Listener closed?
@@ -673,14 +699,7 @@ func childRun(args []string) int {
 
 var panicRe = regexp.MustCompile(`===== PANIC =====\n([^\n]*)`)
 
-func parallel(n int, fn func(w int)) {
-	var wg sync.WaitGroup
-	for w := 0; w < n; w++ {
-		wg.Add(1)
-		go func(w int) { defer wg.Done(); fn(w) }(w)
-	}
-	wg.Wait()
-}
+func parallel(n int, fn func(w int)) { core.Parallel(n, fn) }
 
 func run(c *core.Ctx) {
 	res := c.Res
@@ -698,6 +717,7 @@ func run(c *core.Ctx) {
 		prefix = "race:"
 		par = 6
 	}
+	groupLifecycle(res, core.RNG("c20/lifecycle"), c.Q(3000, 60000)/map[bool]int{false: 1, true: 4}[c.RaceBuild], prefix)
 	seed := uint64(core.Seed())
 	sem := make(chan struct{}, par)
 	var wg sync.WaitGroup
